@@ -34,7 +34,7 @@ theorem tokNs_of_tnorm (ds de ds' de' : List Char) (ρ : List Char → List Char
     ∀ (ps ps' : List Piece) (acc : List Char) (T T' : List Token), PiecesRen ρ N ps ps' →
     (∀ p ∈ ps, p.free (ds ++ de)) → (∀ p ∈ ps', p.free (ds' ++ de')) →
     T.map (fun t => (t.kind, t.value)) = tnorm ds de [] ps acc →
-    T'.map (fun t => (t.kind, t.value)) = tnorm ds' de' [] ps' acc → TokNs ds de ds' de' ρ N T T'
+    T'.map (fun t => (t.kind, t.value)) = tnorm ds' de' [] ps' acc → TokNs ds de ds' de' ρ N (fun _ _ => True) T T'
   | [], [], acc, T, T', _, _, _, hT, hT' => by
     simp only [tnorm, List.append_nil] at hT hT'
     split at hT
@@ -49,7 +49,7 @@ theorem tokNs_of_tnorm (ds de ds' de' : List Char) (ρ : List Char → List Char
           simp only [List.map_cons, List.cons.injEq, Prod.mk.injEq, List.map_eq_nil_iff] at hT hT'
           obtain ⟨⟨xk, xv⟩, rfl⟩ := hT
           obtain ⟨⟨yk, yv⟩, rfl⟩ := hT'
-          exact ⟨⟨by rw [xk, yk], Or.inl ⟨xk, by rw [xv, yv]⟩⟩, trivial⟩
+          exact ⟨⟨⟨by rw [xk, yk], Or.inl ⟨xk, by rw [xv, yv]⟩⟩, trivial⟩, trivial⟩
     · rename_i hacc
       rw [if_neg hacc] at hT'
       simp only [List.map_eq_nil_iff] at hT hT'
@@ -89,10 +89,10 @@ theorem tokNs_of_tnorm (ds de ds' de' : List Char) (ρ : List Char → List Char
         simp only [List.map_cons, List.cons.injEq, Prod.mk.injEq, List.map_eq_nil_iff] at hT2 hU2
         obtain ⟨⟨uk, uv⟩, rfl⟩ := hT2
         obtain ⟨⟨vk, vv⟩, rfl⟩ := hU2
-        have htag : TokN ds de ds' de' ρ N u v :=
-          ⟨by rw [uk, vk], Or.inr ⟨uk, tg, hok, hn, by rw [uv, ← hb]; simp, by rw [vv, ← hb']; simp,
-            by rw [← hb]; exact hfr, by rw [← hb']; exact hfr'⟩⟩
-        have h1 : TokNs ds de ds' de' ρ N T1 U1 := by
+        have htag : TokNR ds de ds' de' ρ N (fun _ _ => True) u v :=
+          ⟨⟨by rw [uk, vk], Or.inr ⟨uk, tg, hok, hn, by rw [uv, ← hb]; simp, by rw [vv, ← hb']; simp,
+            by rw [← hb]; exact hfr, by rw [← hb']; exact hfr'⟩⟩, trivial⟩
+        have h1 : TokNs ds de ds' de' ρ N (fun _ _ => True) T1 U1 := by
           split at hT1
           · rename_i hacc
             rw [if_pos hacc] at hU1
@@ -105,20 +105,20 @@ theorem tokNs_of_tnorm (ds de ds' de' : List Char) (ρ : List Char → List Char
                 simp only [List.map_cons, List.cons.injEq, Prod.mk.injEq, List.map_eq_nil_iff] at hT1 hU1
                 obtain ⟨⟨xk, xv⟩, rfl⟩ := hT1
                 obtain ⟨⟨yk, yv⟩, rfl⟩ := hU1
-                exact ⟨⟨by rw [xk, yk], Or.inl ⟨xk, by rw [xv, yv]⟩⟩, trivial⟩
+                exact ⟨⟨⟨by rw [xk, yk], Or.inl ⟨xk, by rw [xv, yv]⟩⟩, trivial⟩, trivial⟩
           · rename_i hacc
             rw [if_neg hacc] at hU1
             simp only [List.map_eq_nil_iff] at hT1 hU1
             subst hT1 hU1
             trivial
-        exact TokNs_append ds de ds' de' ρ N _ _ _ _ (TokNs_append ds de ds' de' ρ N _ _ [u] [v] h1 ⟨htag, trivial⟩) ih
+        exact TokNs_append ds de ds' de' ρ N (fun _ _ => True) _ _ _ _ (TokNs_append ds de ds' de' ρ N (fun _ _ => True) _ _ [u] [v] h1 ⟨htag, trivial⟩) ih
 
 /-- the facts the position correspondence needs, from corresponding token lists -/
 theorem tokFacts_of_n (d0 : Char) (dr : List Char) (e0 : Char) (er : List Char)
     (d0' : Char) (dr' : List Char) (e0' : Char) (er' : List Char) (ρ : List Char → List Char) (N : List Char → Prop)
     (hd0 : wsChar d0 = false) (hel : ∀ w c, (e0 :: er) = w ++ [c] → wsChar c = false)
     (hd0' : wsChar d0' = false) (hel' : ∀ w c, (e0' :: er') = w ++ [c] → wsChar c = false) :
-    ∀ (L L' : List Token), TokNs (d0 :: dr) (e0 :: er) (d0' :: dr') (e0' :: er') ρ N L L' →
+    ∀ (L L' : List Token), TokNs (d0 :: dr) (e0 :: er) (d0' :: dr') (e0' :: er') ρ N (fun _ _ => True) L L' →
     (∀ t ∈ L, t.value ≠ [] ∧ TokShape d0 e0 (d0 :: dr) (e0 :: er) (t.kind, t.value)) →
     (∀ t ∈ L', t.value ≠ [] ∧ TokShape d0' e0' (d0' :: dr') (e0' :: er') (t.kind, t.value)) →
     TokFacts L L'
@@ -133,7 +133,7 @@ theorem tokFacts_of_n (d0 : Char) (dr : List Char) (e0 : Char) (er : List Char)
   | _ :: _, [], h, _, _ => absurd h (by simp [TokNs])
   | t :: L, u :: L', h, h1, h2 => by
     simp only [TokNs] at h
-    obtain ⟨⟨hk, hx⟩, hrest⟩ := h
+    obtain ⟨⟨⟨hk, hx⟩, _⟩, hrest⟩ := h
     have ih := tokFacts_of_n d0 dr e0 er d0' dr' e0' er' ρ N hd0 hel hd0' hel' L L' hrest
       (fun x hx' => h1 x (by simp [hx'])) (fun x hx' => h2 x (by simp [hx']))
     obtain ⟨n1, s1⟩ := h1 t (by simp)
@@ -187,19 +187,19 @@ theorem tokFacts_of_n (d0 : Char) (dr : List Char) (e0 : Char) (er : List Char)
 
 theorem tokNs_get (ds de ds' de' : List Char) (ρ : List Char → List Char) (N : List Char → Prop) :
     ∀ (A B : List Token) (i : Nat) (hA : i < A.length) (hB : i < B.length),
-    TokNs ds de ds' de' ρ N A B → TokN ds de ds' de' ρ N A[i] B[i]
+    TokNs ds de ds' de' ρ N (fun _ _ => True) A B → TokN ds de ds' de' ρ N A[i] B[i]
   | [], _, i, hA, _, _ => by simp at hA
   | _ :: _, [], i, _, hB, _ => by simp at hB
   | a :: as, b :: bs, i, hA, hB, hAB => by
     simp only [TokNs] at hAB
     cases i with
-    | zero => exact hAB.1
+    | zero => exact hAB.1.1
     | succ j => exact tokNs_get ds de ds' de' ρ N as bs j (by simpa using hA) (by simpa using hB) hAB.2
 
 /-- pieces that describe corresponding token lists with corresponding deletions differ in tag names only -/
 theorem pexact_ren (ds de ds' de' : List Char) (ρ : List Char → List Char) (N : List Char → Prop)
     (L L' : List Token) (hf : TokFacts L L')
-    (hx : TokNs ds de ds' de' ρ N L L') (F F' : List Rng) (hF : RelRs (Rho L L') F F') :
+    (hx : TokNs ds de ds' de' ρ N (fun _ _ => True) L L') (F F' : List Rng) (hF : RelRs (Rho L L') F F') :
     ∀ (n m : Nat) (qs qs' : List Piece), L.length - m = n → m ≤ L.length →
     PExact ds de F qs (L.drop m) (bnd L m) → PExact ds' de' F' qs' (L'.drop m) (bnd L' m) → PiecesRen ρ N qs qs'
   | 0, m, qs, qs', hn, hm, h1, h2 => by
@@ -298,7 +298,7 @@ theorem rename_exact (d0 : Char) (dr : List Char) (e0 : Char) (er : List Char)
   have hok' : ∀ p ∈ ps', p.ok d0' e0' := fun p hp => ok_of_free d0' dr' e0' er' p (hfree' p hp)
   have hT := tokNs_of_tnorm (d0 :: dr) (e0 :: er) (d0' :: dr') (e0' :: er') ρ N ps ps' [] _ _ hren hfree hfree'
     (tokens_tnorm d0 dr e0 er ps hok) (tokens_tnorm d0' dr' e0' er' ps' hok')
-  have hG := parse_n (d0 :: dr) (e0 :: er) (d0' :: dr') (e0' :: er') ρ N hρ (by simp) (by simp) (by simp) (by simp) _ _ hT
+  have hG := parse_n (d0 :: dr) (e0 :: er) (d0' :: dr') (e0' :: er') ρ N (fun _ _ => True) hρ (by simp) (by simp) (by simp) (by simp) _ _ hT
   have hP : ∀ el, N el.name →
       conditionHolds { cfg with tlName := ρ cfg.tlName, rmName := ρ cfg.rmName } (renEl ρ el) = conditionHolds cfg el :=
     fun el hn => cond_ren ρ N hρ cfg htl hrm el hn
@@ -307,7 +307,7 @@ theorem rename_exact (d0 : Char) (dr : List Char) (e0 : Char) (er : List Char)
     have hm : e.1 ∈ (elementsOf (parseSource (renderAll (d0' :: dr') (e0' :: er') ps') (d0' :: dr') (e0' :: er'))).map (·.1) :=
       List.mem_map.mpr ⟨e, he, rfl⟩
     unfold parseSource at hm
-    rw [elements_n _ _ _ _ _ _ _ _ hG] at hm
+    rw [elements_n _ _ _ _ _ _ _ _ _ hG] at hm
     obtain ⟨e1, he1, hee⟩ := List.mem_map.mp hm
     have := hnu e1 he1
     rw [← hee]
@@ -315,9 +315,9 @@ theorem rename_exact (d0 : Char) (dr : List Char) (e0 : Char) (er : List Char)
   obtain ⟨qs, s1, ranges, o1, k1, hu1, x1, f1⟩ := clean_exact d0 dr e0 er hd0 hel ps hok cfg out hnu h
   obtain ⟨qs', s1', ranges', o2, k2, hu2, x2, f2⟩ := clean_exact d0' dr' e0' er' hd0' hel' ps' hok' _ out' hnu' h'
   unfold parseSource at hu1 hu2 k1 k2 x1 x2 f1 f2
-  have hx := flatten_n _ _ _ _ ρ N _ _ (prune_n _ _ _ _ ρ N (conditionHolds cfg)
+  have hx := flatten_n _ _ _ _ ρ N _ _ _ (prune_n _ _ _ _ ρ N _ (conditionHolds cfg)
     (conditionHolds { cfg with tlName := ρ cfg.tlName, rmName := ρ cfg.rmName }) hP _ _ hG)
-  have hidx := seamIdx_n (d0 :: dr) (e0 :: er) (d0' :: dr') (e0' :: er') ρ N (conditionHolds cfg)
+  have hidx := seamIdx_n (d0 :: dr) (e0 :: er) (d0' :: dr') (e0' :: er') ρ N (fun _ _ => True) (conditionHolds cfg)
     (conditionHolds { cfg with tlName := ρ cfg.tlName, rmName := ρ cfg.rmName }) hP _ _ 0 hG
   rw [← hidx] at hu2
   generalize hL : flattenParts (pruneParts (conditionHolds cfg)
